@@ -4,7 +4,9 @@
 using namespace ephemeralnet;
 namespace {
 constexpr long long kNs = 1000000000LL;
-struct Oracle { bool present = false; std::uint8_t b0 = 0, b1 = 0; std::size_t len = 0; long long deadline = 0; };
+// present: a record was stored and not yet reported by a sweep. maybe_dropped: a lookup has noticed the expiry - the store may drop the
+// record then or keep it for the next sweep (both satisfy the property: it is never served again either way).
+struct Oracle { bool maybe_dropped = false; bool present = false; std::uint8_t b0 = 0, b1 = 0; std::size_t len = 0; long long deadline = 0; };
 ChunkId make_id(int which) { ChunkId id{}; for (std::size_t i = 0; i < 32; ++i) id[i] = static_cast<std::uint8_t>(which ? 0xB0 + i : 0x0A + 3 * i); return id; }
 using verif_env::advance_clock;
 }
@@ -33,7 +35,7 @@ extern "C" void h_c01_history(unsigned long k, unsigned long seq) {
             const std::uint8_t b0 = nondet_u8("b0"), b1 = nondet_u8("b1");
             data.push_back(b0);
             if (verif_concretize(two, 2)) data.push_back(b1);
-            o[w].present = true; o[w].b0 = b0; o[w].b1 = b1; o[w].len = data.size();
+            o[w].present = true; o[w].maybe_dropped = false; o[w].b0 = b0; o[w].b1 = b1; o[w].len = data.size();
             const std::int64_t eff = ttl > 0 ? ttl : static_cast<std::int64_t>(dflt);
             o[w].deadline = now + (eff < 1 ? 1 : eff) * kNs;
             store.put(id, std::move(data), std::chrono::seconds(ttl));
@@ -45,7 +47,7 @@ extern "C" void h_c01_history(unsigned long k, unsigned long seq) {
             if (got.has_value() && live) {
                 verif_assert(got->size() == o[w].len && (*got)[0] == o[w].b0 && (o[w].len < 2 || (*got)[1] == o[w].b1), "C01: get returns exactly the stored bytes");
                 verif_reach("get-live");
-            } else { if (o[w].present) verif_reach("get-expired"); o[w].present = false; }
+            } else { if (o[w].present) { verif_reach("get-expired"); o[w].maybe_dropped = true; } }
         } else if (op == 2) {
             const auto rec = store.get_record(id);
             const bool live = o[w].present && now < o[w].deadline;
@@ -54,29 +56,31 @@ extern "C" void h_c01_history(unsigned long k, unsigned long seq) {
                 verif_assert(rec->data.size() == o[w].len && rec->data[0] == o[w].b0 && (o[w].len < 2 || rec->data[1] == o[w].b1), "C01: get_record returns exactly the stored bytes");
                 verif_assert(rec->expires_at.time_since_epoch().count() == o[w].deadline, "C01: the record carries the deadline of the latest store");
                 verif_assert(rec->id == id, "C01: record id");
-            } else o[w].present = false;
+            } else if (o[w].present) o[w].maybe_dropped = true;
         } else if (op == 3) {
             const auto removed = store.sweep_expired();
-            std::size_t expect = 0;
+            std::size_t lo = 0, hi = 0;
             for (int j = 0; j < 2; ++j) {
                 const bool dead = o[j].present && now >= o[j].deadline;
                 std::size_t cnt = 0;
                 for (const auto& r : removed) if (r == make_id(j)) ++cnt;
-                verif_assert(cnt == (dead ? 1u : 0u), "C01: sweep removes exactly the expired chunks, each once");
-                if (dead) { ++expect; o[j].present = false; verif_reach("swept"); }
+                if (dead && !o[j].maybe_dropped) verif_assert(cnt == 1, "C01: sweep removes every expired chunk it still holds, once");
+                else if (dead) verif_assert(cnt <= 1, "C01: sweep reports an expired chunk at most once");
+                else verif_assert(cnt == 0, "C01: sweep never removes a live chunk");
+                if (dead) { lo += o[j].maybe_dropped ? 0 : 1; ++hi; o[j].present = false; o[j].maybe_dropped = false; verif_reach("swept"); }
             }
-            verif_assert(removed.size() == expect, "C01: sweep reports nothing else");
+            verif_assert(removed.size() >= lo && removed.size() <= hi, "C01: sweep reports nothing else");
         } else {
             const auto snap = store.snapshot();
-            std::size_t expect = 0;
+            std::size_t lo = 0, hi = 0;
             for (int j = 0; j < 2; ++j) {
-                if (!o[j].present) continue;
-                ++expect;
+                if (!o[j].present) { for (const auto& e : snap) verif_assert(!(e.id == make_id(j)), "C01: snapshot lists no chunk that was never stored or already swept"); continue; }
                 std::size_t cnt = 0;
                 for (const auto& e : snap) if (e.id == make_id(j)) { ++cnt; verif_assert(e.expires_at.time_since_epoch().count() == o[j].deadline && e.size == o[j].len, "C01: snapshot entry carries the latest deadline and size"); }
-                verif_assert(cnt == 1, "C01: snapshot lists every held record once");
+                if (o[j].maybe_dropped) verif_assert(cnt <= 1, "C01: snapshot lists a record at most once"); else verif_assert(cnt == 1, "C01: snapshot lists every held record once");
+                lo += o[j].maybe_dropped ? 0 : 1; ++hi;
             }
-            verif_assert(snap.size() == expect && store.size() == expect, "C01: snapshot lists nothing else");
+            verif_assert(snap.size() >= lo && snap.size() <= hi && store.size() == snap.size(), "C01: snapshot lists nothing else");
         }
     }
 }
